@@ -222,6 +222,10 @@ def scan(f, pos):
             # string, we need to read more data.
             s = l_ + 1
             if s > len(data) - 8:
+                if l_ == 0:
+                    # Fewer than 8 bytes follow a period at the very
+                    # start of the buffer: we are at the end of the file.
+                    return 0
                 pos += l_
                 break
             tl = u64(data[s:s + 8])
